@@ -35,7 +35,9 @@ var c20nExhAtoms, c20nExhAliases = len(c20atoms), len(c20aliases)
 func init() {
 	c20atoms = append(c20atoms,
 		c20atom{`"u%"`, "u%", nil}, c20atom{`"%d"`, "%d", nil}, c20atom{`"100%s" + b`, "100%s_b", nil}, c20atom{`top(a, "t%", 2)`, "top", []string{"t%"}},
-		c20atom{`"a b"`, "a b", nil}, c20atom{`mean("a b")`, "mean", nil})
+		c20atom{`"a b"`, "a b", nil}, c20atom{`mean("a b")`, "mean", nil},
+		// the tag arguments of top() / bottom() wherever they stand, also last
+		c20atom{`top(a, t)`, "top", []string{"t"}}, c20atom{`bottom(a, t, 2, u)`, "bottom", []string{"t", "u"}}, c20atom{`top(a, 3, t)`, "top", []string{"t"}}, c20atom{`bottom(a, t, u)`, "bottom", []string{"t", "u"}})
 	c20aliases = append(c20aliases, "u%", "%d", "a b", "a%%", "%!d(MISSING)")
 }
 
@@ -224,6 +226,18 @@ func c20One(c *Ctx, fields [][2]int, v c20variant, local map[string]int64) {
 		r.Violation("column-names", det(fmt.Sprintf("not a pure function of the statement: after changing OmitTime / TimeAlias the statement answers %q, an identical fresh statement answers %q", again, want2)))
 		return
 	}
+	// an equal statement gives an equal answer: the printed statement parsed afresh
+	if re, err, pan, _, _ := parseQuery1(sel.String()); err == nil && !pan {
+		rsel := re.(*influxql.SelectStatement)
+		rsel.OmitTime, rsel.TimeAlias = sel.OmitTime, sel.TimeAlias
+		var a1, a2 []string
+		mon.Try(func() { a1, a2 = sel.ColumnNames(), rsel.ColumnNames() })
+		if strings.Join(a1, "\x00") != strings.Join(a2, "\x00") {
+			r.Violation("column-names", det(fmt.Sprintf("the statement answers %q, the same statement printed (%q) and parsed afresh answers %q", a1, sel.String(), a2)))
+			return
+		}
+		local["reparsed-equal"]++
+	}
 	// the names depend on the field list, not on flags kept next to it
 	{
 		var a1, a2 []string
@@ -371,6 +385,36 @@ func checkC20(c *Ctx) (string, bool, []string) {
 			r.Violation("time-alias-not-first", map[string]interface{}{"input": q, "why": fmt.Sprintf("ColumnNames after RewriteTimeFields = %q", cn)})
 		}
 		r.Count("time-alias-via-RewriteTimeFields", 1)
+	}
+	// statements built through the AST constructors, where one node may stand
+	// in two places: the names are those of the equal statement in which every
+	// place has its own node (its clone, its printed form parsed afresh)
+	{
+		a, b, t := &influxql.VarRef{Val: "a"}, &influxql.VarRef{Val: "b"}, &influxql.VarRef{Val: "t"}
+		call := &influxql.Call{Name: "mean", Args: []influxql.Expr{a}}
+		built := []*influxql.SelectStatement{
+			{Fields: influxql.Fields{{Expr: &influxql.BinaryExpr{Op: influxql.MUL, LHS: a, RHS: a}}, {Expr: a}, {Expr: &influxql.BinaryExpr{Op: influxql.ADD, LHS: &influxql.BinaryExpr{Op: influxql.ADD, LHS: b, RHS: b}, RHS: call}}}},
+			{Fields: influxql.Fields{{Expr: call}, {Expr: call}, {Expr: &influxql.BinaryExpr{Op: influxql.DIV, LHS: call, RHS: call}, Alias: "mean"}}},
+			{Fields: influxql.Fields{{Expr: &influxql.Call{Name: "top", Args: []influxql.Expr{a, t, t, &influxql.IntegerLiteral{Val: 2}}}}, {Expr: t}, {Expr: &influxql.ParenExpr{Expr: &influxql.ParenExpr{Expr: t}}}}},
+			{Fields: influxql.Fields{{Expr: &influxql.BinaryExpr{Op: influxql.SUB, LHS: &influxql.ParenExpr{Expr: a}, RHS: &influxql.ParenExpr{Expr: a}}}, {Expr: a, Alias: "a_a"}}},
+		}
+		for bi, sel := range built {
+			sel.Sources = influxql.Sources{&influxql.Measurement{Name: "m"}}
+			sel.IsRawQuery = bi != 1
+			var own, cl, re []string
+			mon.Try(func() {
+				own = sel.ColumnNames()
+				cl = sel.Clone().ColumnNames()
+				if st, err := influxql.ParseStatement(sel.String()); err == nil {
+					re = st.(*influxql.SelectStatement).ColumnNames()
+				}
+			})
+			r.Eval(1)
+			if fmt.Sprint(own) != fmt.Sprint(cl) || fmt.Sprint(own) != fmt.Sprint(re) {
+				r.Violation("column-names", map[string]interface{}{"input": sel.String(), "fields": []interface{}{}, "why": fmt.Sprintf("a statement built with one node in two places answers %q, its clone %q, its printed form parsed afresh %q", own, cl, re)})
+			}
+			r.Count("built-with-shared-nodes", 1)
+		}
 	}
 	r.Require(r.Counter("suffixed-columns") > 0, "no clash was ever resolved with a suffix")
 	r.Require(r.Counter("distinctness-checked") > 0, "distinctness never checked")
